@@ -319,7 +319,7 @@ func (e *c14Env) run(t testing.TB, r *vreport.Report, c c14Case) {
 func TestVerifC14(t *testing.T) {
 	r := vreport.Begin("C14")
 	defer r.Finish(t)
-	r.Rule("every history up to depth D over {add or replace attachment a with content X / Y, add b with X (same content under a second name), drop a, update keeping all attachments as stubs, tombstone, conflicting sibling branch carrying b=Y, conflicting sibling branch keeping the inherited attachments as stubs (every body is larger than the revision tree's inline limit, so a non-winning leaf's body is stored separately), the same content on a second document, tombstone of the second document}, each also with a forced compare-and-swap retry at the last write; after every write every leaf of every document is read back with attachments; non-trivial = distinct (history, cas-retry)")
+	r.Rule("every history of depth D from the empty database, and of depth D-1 from two bases whose current revision inherited its attachment(s) from its parent, over {add or replace attachment a with content X / Y, add b with X (same content under a second name), drop a, update keeping all attachments as stubs, tombstone, conflicting sibling branch carrying b=Y, conflicting sibling branch keeping the inherited attachments as stubs (every body is larger than the revision tree's inline limit, so a non-winning leaf's body is stored separately), the same content on a second document, tombstone of the second document}, each also with a forced compare-and-swap retry at the last write; after every write every leaf of every document is read back with attachments; non-trivial = distinct (history, cas-retry)")
 	r.Assume("database-level API (conflicts allowed so that branches exist); content X is a short text, Y contains every byte value; cross-cluster versioning is off; the replication protocol's attachment allow-list window is not explored here")
 	oldFreq := MaxSequenceIncrFrequency
 	defer func() { MaxSequenceIncrFrequency = oldFreq }()
@@ -346,9 +346,13 @@ func TestVerifC14(t *testing.T) {
 	}
 	r.Note("depth", D)
 	idx := 0
+	// histories from the empty database up to depth D, and up to depth D (quick: D) more from bases in which the
+	// current revision already inherited an attachment from its parent (what sibling branches and stubs need)
+	bases := [][]string{nil, {"d1:+aX", "d1:keep"}, {"d1:+aX", "d1:+bX", "d1:keep"}}
+	var base []string
 	var rec func(h []string)
 	rec = func(h []string) {
-		if len(h) == D {
+		if len(h) == D+len(base)-map[bool]int{true: 1, false: 0}[len(base) > 0] {
 			for _, cas := range []bool{false, true} {
 				idx++
 				if !r.Mine(idx) || r.Expired() {
@@ -370,7 +374,10 @@ func TestVerifC14(t *testing.T) {
 			rec(append(append([]string{}, h...), s))
 		}
 	}
-	rec(nil)
+	for _, b := range bases {
+		base = b
+		rec(append([]string{}, b...))
+	}
 	if r.Expired() {
 		r.Cap("time budget reached before all histories were explored")
 	}
